@@ -229,14 +229,25 @@ class XPath2Parser(XPath1Parser):
             self.token.unexpected(':')
             token = self.token
 
+            # The comment body is scanned on the raw source: its text is not made
+            # of tokens (e.g. '(:::)' is a comment, not '(:' '::' ')').
+            assert self.next_match is not None
+            source, pos = self.source, self.next_match.end()
             comment_level = 1
             while comment_level:
-                self.advance_until('(:', ':)')
-                if self.next_token.symbol == ':)':
-                    comment_level -= 1
-                else:
+                start, end = source.find('(:', pos), source.find(':)', pos)
+                if end < 0:
+                    self.tokens = iter(())
+                    self.next_token = self.symbol_table['(end)'](self)
+                    raise self.next_token.wrong_syntax()
+                elif 0 <= start < end:
                     comment_level += 1
-            self.advance(':)')
+                    pos = start + 2
+                else:
+                    comment_level -= 1
+                    pos = end + 2
+            self.tokens = iter(self.tokenizer.finditer(source, pos))
+            self.advance()
 
             self.next_token.unexpected(':')
             self.token = token
